@@ -124,7 +124,7 @@ for _n, _b in [("object", []), ("int", ["object"]), ("bool", ["int"]), ("str", [
                ("ValueError", ["Exception"]), ("AssertionError", ["Exception"]),
                ("AttributeError", ["Exception"]), ("StopIteration", ["Exception"]),
                ("NotImplementedError", ["RuntimeError"]), ("RuntimeError", ["Exception"]),
-               ("FileNotFoundError", ["OSError"]), ("OSError", ["Exception"])]:
+               ("FileNotFoundError", ["OSError"]), ("OSError", ["Exception"]), ("MarkerObject", ["object"])]:
     CLASSES.add(_n, _b)
 
 
@@ -152,6 +152,8 @@ class ConstTable:
             ax.append(z3.Distinct(*allc))
         ax.append(z3.Not(truthy(NONE)))
         ax.append(typeof(NONE) == CLASSES.const("NoneType"))
+        for key in self.groups.get("marker", []):
+            ax.append(typeof(self.consts[key]) == CLASSES.const("MarkerObject"))
         for key in self.groups.get("str", []):
             c = self.consts[key]
             ax.append(typeof(c) == CLASSES.const("str"))
